@@ -205,6 +205,26 @@ def markers(text: str) -> set[str]:
     return set(MARK.findall(text))
 
 
+def markers_of_temporaries(resolved: str, f, g) -> set[str]:
+    """markers carried by the temporaries a rewritten statement reads: a rewrite may bind an operand of the
+    statement to a fresh variable ahead of it (e.g. to keep its evaluation order), and the operand's literal goes with it;
+    only names that the original program does not have count"""
+    ident = re.compile(r'\b[A-Za-z_]\w*\b')
+    old = set(ident.findall(f.format()))
+    lines = g.format().splitlines()
+    out: set[str] = set()
+    seen: set[str] = set()
+    todo = set(ident.findall(resolved)) - old
+    while todo and len(seen) < 200:
+        nm = todo.pop()
+        seen.add(nm)
+        for ln in lines:
+            if re.match(rf'\s*{re.escape(nm)} = ', ln):
+                out |= markers(ln)
+                todo |= set(ident.findall(ln)) - old - seen
+    return out
+
+
 def own_marker(stmt) -> str | None:
     """the marker introduced by the statement's own header line"""
     head = stmt.format().splitlines()[0]
@@ -494,7 +514,7 @@ def run_program(res: Result, rng: random.Random, mod, source: str, quick: bool):
                 rt = resolved_text(img)
                 om = own_marker(orig[1])
                 res.evaluations += 1
-                if om is not None and om not in markers(rt):
+                if om is not None and om not in markers(rt) | markers_of_temporaries(rt, f, g):
                     mon.violate('site_image_unrelated', name, f'where={j}: the rewritten site forwards to statements that do not descend from it',
                                 statement=orig[2], resolved=rt)
             except TransformReferenceError:
@@ -604,7 +624,7 @@ def run_program(res: Result, rng: random.Random, mod, source: str, quick: bool):
             res.nontrivial += 1 if nedits else 0
             om = own_marker(s)
             got = markers(rt) & allmarks
-            if (om is not None and om not in got) or not got <= markers(text):
+            if (om is not None and om not in got | markers_of_temporaries(rt, f, cur)) or not got <= markers(text):
                 mon.violate('forward_unrelated', 'forward', 'a forwarded statement cursor resolves to statements that do not descend from the one it named',
                             steps=steps, statement=text, resolved=rt, final=final_text)
                 break
@@ -624,7 +644,8 @@ def run_program(res: Result, rng: random.Random, mod, source: str, quick: bool):
             res.count('seq_region_resolved')
             got = markers(rt) & allmarks
             oa, ob = own_marker(view.stmts[ta][1]), own_marker(view.stmts[tb][1])
-            if (oa and oa not in got) or (ob and ob not in got) or not got <= markers(texts):
+            tmp = markers_of_temporaries(rt, f, cur)
+            if (oa and oa not in got | tmp) or (ob and ob not in got | tmp) or not got <= markers(texts):
                 mon.violate('forward_unrelated', 'forward', 'a forwarded region resolves to statements that do not descend from the ones it named',
                             steps=steps, statement=texts, resolved=rt, final=final_text)
                 break
